@@ -996,6 +996,25 @@ class C15(Prop):
                             before_opts = ds.CompileOptions(**proj).to_dict()
                             if ds.CompileOptions(**(after or {})).to_dict() != before_opts:
                                 viol.append(({"kind": "project", "global": gopts.to_dict(), "project": proj}, "project_config_meaning_changed", "config.yaml denotes different options after compiling"))
+                        # the options hold per compilation through every entry point of ONE Compiler object: after a
+                        # file of this project, a string (and a file of a directory without config) compile under
+                        # the options the object was built with
+                        plain = os.path.join(root, "plain")
+                        os.makedirs(plain, exist_ok=True)
+                        open(os.path.join(plain, "p.txt"), "w").write("REM c\nSTRING x\nFOO")
+                        one = ds.Compiler(ds.CompileOptions(include_comments=g_comments, use_project_config=g_use))
+                        try:
+                            one.compile_file(os.path.join(root, "main.txt"))
+                            later_s = one.compile("REM c\nSTRING x\nFOO")
+                            later_f = one.compile_file(os.path.join(plain, "p.txt"))
+                            fresh = ds.Compiler(ds.CompileOptions(include_comments=g_comments, use_project_config=g_use)).compile("REM c\nSTRING x\nFOO")
+                            ev += 2
+                            for nm, later in (("compile(text)", later_s), ("compile_file(dir without config)", later_f)):
+                                if later.output != fresh.output or len(later.warnings) != len(fresh.warnings):
+                                    viol.append(({"kind": "project", "global": gopts.to_dict(), "project": proj, "entry": nm}, "options_leak_between_entry_points",
+                                                 "after compile_file of a project, %s on the same Compiler gives %r, with these options a fresh one gives %r" % (nm, later.output, fresh.output)))
+                        except ds.CompilationError:
+                            pass
         finally:
             shutil.rmtree(root, ignore_errors=True)
         return {"violations": viol, "evaluations": ev, "summary": {"project_config_runs": ev}}
